@@ -139,7 +139,8 @@ func generateDecoder(api frontend.API, sequential bool, n int, sel frontend.Vari
 	if sequential {
 		indicators, err = api.Compiler().NewHint(muxIndicators, n, sel)
 	} else {
-		indicators, err = api.Compiler().NewHint(mapIndicators, len(keys), append(keys, sel)...)
+		// cap the slice: keys belongs to the caller and may be a sub-slice of a larger array
+		indicators, err = api.Compiler().NewHint(mapIndicators, len(keys), append(keys[:len(keys):len(keys)], sel)...)
 	}
 	if err != nil {
 		panic(fmt.Sprintf("error in calling Mux/Map hint: %v", err))
